@@ -81,10 +81,13 @@ def run_case(case) -> Result:
     stats = {"overlap": False, "lost": False, "cancelled": False}
 
     async def main(W):
-        spa, tm, ev = await clients.connect_async_spa(W, peer, keep_loops=(gate in ("open", "outage")))
+        spa, tm, ev = await clients.connect_async_spa(W, peer, keep_loops=(gate in ("open", "outage", "not-connected")))
         try:
             proto = spa._protocol
             lock = recording.install_lock(proto, W)
+            if gate == "not-connected":
+                # before the timing table is switched: the switch wakes the refresh loop, which must already find the spa gone
+                spa._is_connected = False
             if case.get("mode") == "active" or gate == "outage":
                 # the active timing table (a pump is running): ping frequency 2 s, so "not answering pings" starts after 4 s
                 from geckolib.config import set_config_mode
@@ -185,6 +188,11 @@ def run_case(case) -> Result:
                     raise t.exception()
             if noise_task is not None:
                 await noise_task
+            if gate == "not-connected" and not res.violations:
+                # the connection's own periodic callers are behind the same gates: one full refresh period (idle table 120 s,
+                # active table 30 s) with the gate closed must not produce a single query of theirs.  (Not judged for an outage:
+                # a refresh iteration that began while the spa still answered legitimately runs through its retries.)
+                await W.sleep(GeckoConfig.SPA_PACK_REFRESH_FREQUENCY_IN_SECONDS + 5.0)
             if res.violations:
                 return
             W.s2c_tape, W.c2s_tape = [], []
@@ -230,6 +238,9 @@ def run_case(case) -> Result:
                     want = KIND_VERB[name.split(":")[2]]
                     if v != want:
                         res.fail("C06|interleaved-send", f"{v!r} was sent inside the lock window of {name} (expects {want!r})")
+                elif name == "SPA:Refresh loop" and gate == "not-connected":
+                    res.fail(f"C06|gate-{gate}|refresh-loop", f"the connection's refresh loop sent {v!r} at {t_ - t_base:.1f}s although the spa is not connected")
+                    break
                 elif name == "SPA:Ping loop" and v != b"APING":
                     res.fail("C06|interleaved-send", f"{v!r} inside the ping loop's window")
                 elif name == "SPA:Refresh loop" and v not in (b"STATU", b"CURCH"):
